@@ -61,6 +61,7 @@ impl Problem {
             "sho" => vec![1.0, 0.0],
             "logistic" => vec![0.125],
             "blow2" => vec![1.0],
+            "relaxc" => vec![-3.996e9],
             "tan" => vec![0.0],
             "signc" => vec![0.0],
             "robertson" => vec![1.0, 0.0, 0.0],
@@ -95,6 +96,8 @@ impl Problem {
             "cube" => d[0] = -y[0] * y[0] * y[0],
             // stiff relaxation towards cos t with rate p
             "relax" => d[0] = -p * (y[0] - t.cos()),
+            // relaxation with rate p towards a large negative constant (states of magnitude 4e9)
+            "relaxc" => d[0] = -p * (y[0] - (-4.0e9)),
             // -y until t = p, then the very stiff -1e4 y^3
             "switch3" => d[0] = if t < p { -y[0] } else { -1.0e4 * y[0] * y[0] * y[0] },
             // -k(t) y^3 with k jumping from 1 to 1e4 at t = p: a step straddling the jump fails in Newton
@@ -182,7 +185,7 @@ impl Problem {
             "blow2" => j[0] = 2.0 * y[0],
             "tan" => j[0] = 2.0 * y[0],
             "cube" => j[0] = -3.0 * y[0] * y[0],
-            "relax" => j[0] = -p,
+            "relax" | "relaxc" => j[0] = -p,
             "switch3" => j[0] = if _t < p { -1.0 } else { -3.0e4 * y[0] * y[0] },
             "kjump3" => j[0] = -3.0 * (if _t < p { 1.0 } else { 1.0e4 }) * y[0] * y[0],
             "sqrtneg" => j[0] = -0.5 / y[0].sqrt(),
